@@ -219,7 +219,7 @@ func trimLeftSlash(s string) string {
 func init() {
 	register(&CheckDef{
 		ID: "C13", Build: "light", Run: c13Run, RunCase: c13RunCase,
-		Rule: "states = every reference string of the product scheme x authority x path x query x fragment (plus the zero Ref and opaque urn:/mailto: forms); transitions = print+parse, JSON encode/decode (bare and inside Refable), gob encode/decode (top level, slice element, map value); equality = canonical text plus the five classification flags plus IsRoot; non-trivial = the string is accepted as a reference",
+		Rule:        "states = every reference string of the product scheme x authority x path x query x fragment (plus the zero Ref and opaque urn:/mailto: forms); transitions = print+parse, JSON encode/decode (bare and inside Refable), gob encode/decode (top level, slice element, map value); equality = canonical text plus the five classification flags plus IsRoot; non-trivial = the string is accepted as a reference",
 		Assumptions: []string{"authorities are hosts with at most one port (no userinfo), as C13 states", "an 'empty reference' is the zero Ref{}; NewRef(\"\") is the reference to the document root"},
 		MinOutcomes: 2,
 	})
